@@ -170,3 +170,18 @@ Example known_rich : known_of doc_rich = Some false.              Proof. vm_comp
 Example known_mixed_split : known_of doc_mixed_split = Some true. Proof. vm_compute. reflexivity. Qed.
 Example known_edge_blank : known_of doc_edge_blank = Some true.   Proof. vm_compute. reflexivity. Qed.
 Example known_amp_pattern : known_of doc_amp_pattern = Some true. Proof. vm_compute. reflexivity. Qed.
+
+(* ---------- the boolean checkers on real loaded trees ---------- *)
+From AV Require Import Xml.RoundTripCanonb.
+Definition rootcanon_of (d : list N) : option bool :=
+  match LOAD true d with
+  | Val (Ret t st) => Some (rootcanonb RT tab_element tab_attr tab_enum accept_all no_float_fmt no_float (p_version st) t)
+  | _ => None
+  end.
+(* the rich document (attributes, entities, mixed content, a comment) loads to a canonical root; the three documents of
+   the recorded classes do not *)
+Example rootcanon_rich : rootcanon_of doc_rich = Some true.                 Proof. vm_compute. reflexivity. Qed.
+Example rootcanon_plain : rootcanon_of doc_ok = Some true.                  Proof. vm_compute. reflexivity. Qed.
+Example rootcanon_mixed_split : rootcanon_of doc_mixed_split = Some false.  Proof. vm_compute. reflexivity. Qed.
+Example rootcanon_edge_blank : rootcanon_of doc_edge_blank = Some false.    Proof. vm_compute. reflexivity. Qed.
+Example rootcanon_amp_pattern : rootcanon_of doc_amp_pattern = Some false.  Proof. vm_compute. reflexivity. Qed.
